@@ -13,7 +13,8 @@ def T(s):
 
 def enc_case(c):
     """c = {'formula': str, 'vars': [(name, value)], 'funs': [(name, kind, payload)], 'cells': [(LABEL, [values])],
-            'ranges': [values]}  (values may be frozen, see common.thaw)"""
+            'ranges': [values], 'varset' / 'funset': [(name, [values])] handed to the setter by the callVariable /
+            callFunction listener}  (values may be frozen, see common.thaw)"""
     out = [len(c.get('vars', []))]
     for n, v in c.get('vars', []):
         out += T(n) + enc_value(thaw(v))
@@ -32,6 +33,12 @@ def enc_case(c):
     out.append(len(c.get('ranges', [])))
     for v in c.get('ranges', []):
         out += enc_value(thaw(v))
+    for key in ('varset', 'funset'):
+        out.append(len(c.get(key, [])))
+        for name, vals in c.get(key, []):
+            out += T(name) + [len(vals)]
+            for v in vals:
+                out += enc_value(thaw(v))
     out += T(c['formula'])
     return out
 
@@ -125,11 +132,18 @@ def make_parser(c):
         for v in c.get('ranges', []):
             done(thaw(v))
 
+    varset = dict((n, [thaw(v) for v in vals]) for n, vals in c.get('varset', []))
+    funset = dict((n, [thaw(v) for v in vals]) for n, vals in c.get('funset', []))
+
     def on_var(name, done):
         events.append(('var', name))
+        for v in varset.get(name, []):
+            done(v)
 
     def on_fn(name, args, done):
         events.append(('fn', name, tuple(canon_py(a) for a in args)))
+        for v in funset.get(name, []):
+            done(v)
     p.on('callCellValue', on_cell)
     if c.get('ranges') is not None:
         p.on('callRangeValue', on_range)
